@@ -1,9 +1,43 @@
+(** C10 — store contents are always expiry-bounded, also after a crash at any point. *)
 From Coq Require Import ZArith NArith Bool List.
-From WW Require Import Gen.Params Base.AMap Model.SessionTime Model.Machine Model.Entry Proofs.MachineRefute.
+From WW Require Import Gen.Params Base.AMap Model.SessionTime Model.Machine Model.Entry
+     Proofs.MachineP Proofs.MachineRefute.
 Import ListNotations.
 Open Scope Z_scope.
-Theorem c10_update_race_refuted :
+
+Lemma pin_lock_lease : lock_duration = 10 * second. Proof. reflexivity. Qed.
+Lemma pin_lock_acquire_timeout : lock_acquire_timeout = 15 * second. Proof. reflexivity. Qed.
+
+(** In every state reachable by any event list (every interleaving, any thread abandoned at any operation
+    boundary = crashed, any fault, any clock advance): every session entry of the shared store has an expiry
+    at most max-lifetime ahead, every lock entry an expiry at most one lease ahead. *)
+Theorem c10_ttl_invariant : forall c es tau,
+  c_upd_atomic c = true -> 0 <= c_maxlife c ->
+  ttl_inv c (m_w (run_events c (init_state tau) es)).
+Proof. intros. apply ttl_invariant; auto. apply ttl_inv_init. Qed.
+Print Assumptions c10_ttl_invariant.
+
+(** What a reader sees: a positive remaining time-to-live, no longer than the maximum lifetime. *)
+Theorem c10_live_entry_ttl : forall c w k e,
+  ttl_inv c w -> c_redis c = true -> store_get w k = Some e ->
+  exists x, e_exp e = Some x /\ 0 < x - w_clock w <= c_maxlife c.
+Proof. exact live_entry_ttl. Qed.
+Print Assumptions c10_live_entry_ttl.
+
+(** A lock left by a crashed refresher is gone once the (ten-second) lease has passed. *)
+Theorem c10_lock_gone_after_lease : forall c w k d,
+  ttl_inv c w -> c_lock_lease c <= d -> lock_get (set_clock w (w_clock w + d)) k = None.
+Proof. exact lock_gone_after_lease. Qed.
+Print Assumptions c10_lock_gone_after_lease.
+
+(** Pre-fix code (flag off): the update race leaves an entry without any expiry. *)
+Theorem c10_immortal_key_refuted :
   let s := run_events (cfg_redis false false false) (init_state 3600) race_schedule in
   thread_done s 2 (OStatus 302) /\ exists e, store_get (m_w s) 1 = Some e /\ e_exp e = None.
 Proof. exact update_race_resurrects. Qed.
-Print Assumptions c10_update_race_refuted.
+Print Assumptions c10_immortal_key_refuted.
+
+Example c10_nonvacuous :
+  let s := run_events (cfg_redis true true true) (init_state 3600) [ELogin 1 2; ETick (100 * second)] in
+  exists e, store_get (m_w s) 1 = Some e /\ e_exp e = Some (7200 * second).
+Proof. vm_compute. eexists. split; reflexivity. Qed.
